@@ -639,6 +639,9 @@ func (g *Gen) loopMods(li *loopInfo) (comps map[string]bool, dirty map[string]bo
 					continue
 				}
 				ct := g.calleeContract(cc)
+				if ct != nil && ct.NoReturn {
+					continue // control never comes back from this call: no effect on later iterations
+				}
 				if ct == nil || (!ct.ModSet) || ct.ModAll {
 					all = true
 					continue
